@@ -187,3 +187,99 @@ def c08_run(sc, results):
             out.append((f"union of the parts of query {j['QryContigID']} is a valid matching ({len(u)} pairs) but the joined record has {len(j['_pairs'])} pairs; part segments {nseg}",
                         sig, "union"))
     return out
+
+
+# ---------------------------------------------------------------- C18 (read-back of every written file)
+def c18_file(rows, rb, refs, qrys):
+    if "error" in rb:
+        return f"the project's XMAP reader fails on a file COMA wrote: {rb['error']}"
+    als = rb["alignments"]
+    if len(als) != len(rows):
+        return f"{len(als)} alignments read back from {len(rows)} records"
+    for rec, a in zip(rows, als):
+        if (a["id"], a["q"], a["r"]) != (int(rec["XmapEntryID"]), int(rec["QryContigID"]), int(rec["RefContigID"])):
+            return "ids differ after read-back"
+        if a["rev"] != (rec["Orientation"] == "-") or a["hit"] != rec["HitEnum"]:
+            return f"orientation / HitEnum differ after read-back ({a['hit']!r} vs {rec['HitEnum']!r})"
+        for k, col in (("qs", "QryStartPos"), ("qe", "QryEndPos"), ("rs", "RefStartPos"), ("re", "RefEndPos"),
+                       ("ql", "QryLen"), ("rl", "RefLen")):
+            if a[k] != int(float(rec[col])):
+                return f"{col} reads back as {a[k]}, written {rec[col]}"
+        if abs(a["conf"] - float(rec["Confidence"])) > 1e-9:
+            return "confidence differs after read-back"
+        if [(p[0], p[2]) for p in a["pairs"]] != rec["_pairs"]:
+            return "label pairs differ after read-back"
+        rpos = refs[a["r"]][1]
+        qpos = qrys[a["q"]][1]
+        for (rs, rp, qs, qp) in a["pairs"]:
+            if rp != rpos[rs - 1] or qp != qpos[qs - 1] - qpos[0]:
+                return "pair coordinates are not those of the named labels"
+    return None
+
+
+# ---------------------------------------------------------------- C04 (confidence recomputed from raw maps)
+def c04_candidate(c, sc):
+    """c: captured candidate {row, query, reference}; recompute every segment's score from the
+    raw coordinates, the segment's peak and the parameters the harness passed"""
+    from src.alignment.alignment_position import AlignedPair, NotAlignedQueryPosition, NotAlignedReferencePosition, ScoredNotAlignedPosition
+    P = sc.P
+    row, q, ref = c["row"], c["query"], c["reference"]
+    refs = {mid: sorted(pos) for mid, _, pos in sc.refs}
+    qr = {mid: sorted(pos) for mid, _, pos in sc.queries}
+    rpos = refs[int(ref.moleculeId)]
+    qfull = qr[int(q.moleculeId)]
+    qtrim = [p - qfull[0] for p in qfull]
+    qlen = qtrim[-1] + 1
+    rev = row.reverseStrand
+    total = 0
+    for seg in row.segments:
+        if not seg.positions:
+            continue
+        peak = int(seg.peak.position)
+        seen_r, seen_q = set(), set()
+        span = []
+        for p in seg.positions:
+            inner = p.position if isinstance(p, ScoredNotAlignedPosition) else p
+            if isinstance(inner, AlignedPair):
+                rs, qs = inner.reference.siteId, inner.query.siteId
+                if not (1 <= rs <= len(rpos) and 1 <= qs <= len(qtrim)):
+                    return "a pair names a label that does not exist"
+                rp = rpos[rs - 1]
+                qp = (qlen - 1 - qtrim[qs - 1]) if rev else qtrim[qs - 1]
+                off = qp - (rp - peak)
+                if abs(off) > P["md"]:
+                    return f"pair offset {off} exceeds maxPairDistance {P['md']}"
+                total += P["sp"] - P["dp"] * abs(off)
+                key_r, key_q = rs, qs
+                span.append(rp)
+            elif isinstance(inner, NotAlignedReferencePosition):
+                key_r, key_q = inner.reference.siteId, None
+                total += P["su"]
+                span.append(rpos[key_r - 1])
+            else:
+                key_r, key_q = None, inner.query.siteId
+                total += P["su"]
+                qp = (qlen - 1 - qtrim[key_q - 1]) if rev else qtrim[key_q - 1]
+                span.append(qp + peak)
+            if key_r is not None:
+                if key_r in seen_r:
+                    return "a reference label is counted twice in one segment"
+                seen_r.add(key_r)
+            if key_q is not None:
+                if key_q in seen_q:
+                    return "a query label is counted twice in one segment"
+                seen_q.add(key_q)
+        lo, hi = min(span), max(span)
+        for i, rp in enumerate(rpos, 1):
+            if lo < rp < hi and i not in seen_r:
+                return f"reference label {i} inside a segment's span is not accounted for"
+        nq = len(qtrim)
+        lo_site = q.shift + 1
+        hi_site = q.shift + len(q.positions)
+        for i in range(lo_site, hi_site + 1):
+            qp = (qlen - 1 - qtrim[i - 1]) if rev else qtrim[i - 1]
+            if lo < qp + peak < hi and i not in seen_q:
+                return f"query label {i} inside a segment's span is not accounted for"
+    if abs(float(row.confidence) - total) > 1e-6:
+        return f"confidence {row.confidence} is not the configured score of what is reported ({total})"
+    return None
